@@ -77,6 +77,14 @@ pub fn plan(tier: &str, seed: u64) -> Vec<Batch> {
         for i in 0..nb {
             v.push(Batch { check: "C06".into(), phase: "static".into(), uni: uni.clone(), seed, lo: i * PER_BATCH, hi: (i + 1) * PER_BATCH, fresh: false, tier: tier.into(), extra: Value::Null });
         }
+        if uni.mount_api == MountApi::Eperm {
+            let nm = race_capi_matrix().len() as u64;
+            let mut lo = 0;
+            while lo < nm {
+                v.push(Batch { check: "C06".into(), phase: "race-capi".into(), uni: uni.clone(), seed, lo: lo * RACE_W, hi: (lo + 6).min(nm) * RACE_W, fresh: false, tier: tier.into(), extra: Value::Null });
+                lo += 6;
+            }
+        }
         if ui < 2 {
             // fixed layouts under every single fault placement of the lookup
             for i in 0..fault_layouts(&uni).len() as u64 {
@@ -679,20 +687,42 @@ pub fn race_matrix() -> Vec<(&'static str, bool, &'static str, Base, &'static st
     v
 }
 
+/// the C API's global handle when it lives on the host's /proc (the new mount API refused):
+/// (target, on the dentry itself, source, base, path, flags)
+pub fn race_capi_matrix() -> Vec<(&'static str, bool, &'static str, Base, &'static str, i32)> {
+    let mut v = Vec::new();
+    for (dst, nofollow, base, path) in [("/proc/self/exe", true, Base::SelfP, "exe"), ("/proc/self/status", false, Base::SelfP, "status"), ("/proc/self/cwd", true, Base::SelfP, "cwd"), ("/proc/mounts", true, Base::Root, "mounts")] {
+        for src in ["/mnt/w/outside/secret", "/proc/version", "/dev/null"] {
+            for flags in [libc::O_PATH | libc::O_NOFOLLOW, libc::O_PATH, libc::O_RDONLY | libc::O_NONBLOCK | libc::O_NOFOLLOW] {
+                v.push((dst, nofollow, src, base, path, flags));
+            }
+        }
+    }
+    v
+}
+
+pub fn race_capi_case(u: &mut Universe, idx: u64, uni: &UniCfg, st: &mut Stats) -> bool {
+    let (idx, window) = (idx / RACE_W, (idx % RACE_W) as usize);
+    let m = race_capi_matrix();
+    let (dst, nofollow, src, base, path, flags) = m[idx as usize % m.len()];
+    let mut rng = Rng::new(idx);
+    race_one(u, uni, st, &mut rng, dst, nofollow, src, base, path, Some((None, "global", flags, false)), window)
+}
+
 pub fn race_matrix_case(u: &mut Universe, idx: u64, uni: &UniCfg, st: &mut Stats) -> bool {
     let (idx, window) = (idx / RACE_W, (idx % RACE_W) as usize);
     let m = race_matrix();
     let (dst, nofollow, src, base, path, ctor, cname, flags, readlink) = m[idx as usize % m.len()];
     let mut rng = Rng::new(idx);
-    race_one(u, uni, st, &mut rng, dst, nofollow, src, base, path, Some((ctor, cname, flags, readlink)), window)
+    race_one(u, uni, st, &mut rng, dst, nofollow, src, base, path, Some((Some(ctor), cname, flags, readlink)), window)
 }
 
 #[allow(clippy::too_many_arguments)]
-fn race_one(u: &mut Universe, uni: &UniCfg, st: &mut Stats, rng: &mut Rng, dst: &str, nofollow: bool, src: &str, base: Base, path: &str, fixed: Option<(ProcCtor, &'static str, i32, bool)>, window: usize) -> bool {
+fn race_one(u: &mut Universe, uni: &UniCfg, st: &mut Stats, rng: &mut Rng, dst: &str, nofollow: bool, src: &str, base: Base, path: &str, fixed: Option<(Option<ProcCtor>, &'static str, i32, bool)>, window: usize) -> bool {
     let src = src.to_string();
     // private handles must be unaffected; handles on the host's /proc (plain open, recursive
     // clone taken before the mount) may fail, but a success is never the over-mounted object
-    let (ctor, cname) = if let Some((c, n, _, _)) = fixed { (Some(c), n) } else { *rng.pick(&[
+    let (ctor, cname) = if let Some((c, n, _, _)) = fixed { (c, n) } else { *rng.pick(&[
         (None, "global"),
         (Some(ProcCtor::New), "new"),
         (Some(ProcCtor::FromFsopen), "fsopen-unmasked"),
@@ -786,6 +816,11 @@ pub fn run(u: &mut Universe, b: &Batch, st: &mut Stats) {
                     return;
                 }
             }
+            "race-capi" => {
+                if !race_capi_case(u, idx, &b.uni, st) {
+                    return;
+                }
+            }
             _ => {
                 let case = gen_case(b.seed, idx, &b.uni);
                 if !run_pair(u, &case, st, idx == b.lo) {
@@ -810,7 +845,7 @@ pub fn finalise(tier: &str, seed: u64, res: coord::CheckResult) -> i32 {
         tier,
         seed,
         "exploration",
-        "one evaluation = one procfs lookup (open, open_follow, readlink; Rust handle or the C API's global handle) executed twice: on a clean /proc and with 1-3 mounts placed by the simulated attacker (fd-based move_mount exactly on the dentry, so symlinks and magic-links can be over-mounted) on files, directories, in-procfs symlinks, magic-links, /proc/self, /proc/thread-self and /proc itself - tmpfs, bind of a foreign file/directory, bind of another procfs file/directory, bind of a magic-link target, bind of a symlink as such (a foreign link that leads into another process's directory, procfs's own links); handle kinds: fsopen (subset and unmasked), open_tree non-recursive and recursive (taken before or after the mounts), plain open, global; universes K/E x new mount API {available, fsopen refused, all refused}; oracles: a successful result never lives on a mount the attacker placed nor is the mounted object; a handle backed by a private procfs gives exactly the result it gives without the mounts; any other handle gives that result or an error; race phase: for non-following lookups one mount is placed at every window of the lookup, on private handles (must be unaffected) and on handles that live on the host's /proc (plain open, recursive clone: may fail, a success is never the over-mounted object); non-trivial = at least one attacker mount took effect; distinct = hash of the case",
+        "one evaluation = one procfs lookup (open, open_follow, readlink; Rust handle or the C API's global handle) executed twice: on a clean /proc and with 1-3 mounts placed by the simulated attacker (fd-based move_mount exactly on the dentry, so symlinks and magic-links can be over-mounted) on files, directories, in-procfs symlinks, magic-links, /proc/self, /proc/thread-self and /proc itself - tmpfs, bind of a foreign file/directory, bind of another procfs file/directory, bind of a magic-link target, bind of a symlink as such (a foreign link that leads into another process's directory, procfs's own links); handle kinds: fsopen (subset and unmasked), open_tree non-recursive and recursive (taken before or after the mounts), plain open, global; universes K/E x new mount API {available, fsopen refused, all refused}; oracles: a successful result never lives on a mount the attacker placed nor is the mounted object; a handle backed by a private procfs gives exactly the result it gives without the mounts; any other handle gives that result or an error; race-capi: the same for the C API's global handle when it lives on the host's /proc (new mount API refused), with the flag sets C callers use for 'the link itself' (O_PATH|O_NOFOLLOW); race phase: for non-following lookups one mount is placed at every window of the lookup, on private handles (must be unaffected) and on handles that live on the host's /proc (plain open, recursive clone: may fail, a success is never the over-mounted object); non-trivial = at least one attacker mount took effect; distinct = hash of the case",
         res,
         extra,
         vec!["requires statx mount ids (Linux 5.8+), as the statement does".into(), "the final-component race of open_follow on non-private handles is outside the statement and not asserted".into()],
